@@ -49,6 +49,11 @@ def enc_aranges(le, sets, fmt=32):
             assert (a, ln) != (0, 0), 'a (0,0) tuple is the terminator'
             body += u(le, A, a) + u(le, A, ln)
         body += u(le, A, 0) + u(le, A, 0)
+        # bytes that unit_length still covers behind the terminating pair (a producer may round a set up; the next set starts where
+        # unit_length says, not where the terminator ended).  Whole multiples of 16 keep every following set on its tuple size.
+        slack = bytes(s.get('slack', b''))
+        assert len(slack) % 16 == 0
+        body += slack
         if fmt == 32:
             unit_length = ARANGES_HEADER - 4 + len(body)
             out += u(le, 4, unit_length) + u(le, 2, 2) + u(le, 4, s['info']) + bytes([A, 0]) + body
